@@ -54,6 +54,29 @@ def _vc_key(ob):
     return h.hexdigest()
 
 
+def check_theory(path, tier):
+    """Lean 4 / Mathlib file with the finite-sum facts the congruence prover relies on."""
+    import hashlib
+    import subprocess
+    try:
+        h = hashlib.sha256(open(path, "rb").read()).hexdigest()
+        rec = open(path.replace(".lean", ".checked.sha256")).read().strip()
+    except OSError as e:
+        return {"status": "error", "message": str(e)}
+    if h != rec:
+        return {"status": "error", "message": "theory file differs from the version recorded as checked by lean"}
+    if tier != "thorough":
+        return {"status": "ok", "mode": "hash of the file last checked by lean 4.33 + Mathlib", "sha256": h}
+    t0 = time.time()
+    try:
+        r = subprocess.run(["lean", os.path.basename(path)], cwd=os.path.dirname(path), capture_output=True, text=True, timeout=1500)
+    except (OSError, subprocess.TimeoutExpired) as e:
+        return {"status": "error", "message": f"lean did not run: {e}"}
+    bad = r.returncode != 0 or "error" in r.stdout or "sorry" in r.stdout
+    return {"status": "error" if bad else "ok", "mode": "re-checked by lean", "sha256": h, "time_s": round(time.time() - t0, 1),
+            "message": (r.stdout + r.stderr)[-800:] if bad else ""}
+
+
 class KnownIndex:
     """Known findings of one property, keyed by (function, obligation) - exact name, or a regular expression
     (`obligation_regex`, full match) for contracts whose clause labels carry evidence-class suffixes."""
@@ -359,6 +382,13 @@ def run_property(pid, tier="quick", seed=0, update_ledger=False, verbose=False):
         elif b["status"] != "ok":
             undecided.append(f"bounded {b['name']}: {b.get('message','')[:300]}")
 
+    # theory file behind the sum-congruence prover (rules E / Z): quick = hash of the checked file, thorough = re-check with lean
+    theory = None
+    if p.get("theory"):
+        theory = check_theory(os.path.join(ROOT, p["theory"]), tier)
+        if theory["status"] != "ok":
+            crashed.append(f"theory file {p['theory']}: {theory['message']}")
+
     os.makedirs(os.path.join(ROOT, "replays"), exist_ok=True)
     for i, (fn, nm, o) in enumerate(violations):
         rp = os.path.join(ROOT, "replays", f"{pid}_{i}.json")
@@ -433,6 +463,7 @@ def run_property(pid, tier="quick", seed=0, update_ledger=False, verbose=False):
             "distinct_nontrivial": max(2, len({o for f in names_now.values() for o in f}) + sum(1 for b in bounded_results if b.get("cases", 0) > 0)),
             "rule": "one evaluation = one generated obligation or one natively executed contract case; distinct = distinct obligation names + functions exercised natively",
             "native_cases": n_bounded,
+            "theory_file": theory,
         },
         "assumptions": assumptions, "wall_s": round(wall, 2), "violations": sum(1 for l in lines if l.startswith("VIOLATION")),
     }
